@@ -27,10 +27,8 @@ package main
 
 import (
 	"fmt"
-	"os"
 	"runtime"
 	"strings"
-	"time"
 
 	"verif/lib/gen"
 	"verif/lib/run"
@@ -47,23 +45,33 @@ func main() {
 			"distinct = hash of plan shape + base + released-gate sequence; non-trivial = at least two consumers or one decorator",
 		Workers: 8,
 		Race:    true,
+		// Floors: about 1/5 of what the quick tier measures at seed 1 (the
+		// enumerations are deterministic, their floors sit just below the exact count).
 		Floors: map[string]int64{
-			"leaf_consumptions":                          5000,
-			"parked_in_multiplexer":                      1500,
-			"parked_waiting_for_other_clones_to_declare": 1000,
-			"parked_waiting_for_task":                    300,
-			"task_gate_releases":                         500,
-			"task_error_reported":                        200,
-			"io_error_seen":                              300,
-			"validation_error_seen":                      100,
-			"early_closes":                               300,
-			"source_closed_once":                         2000,
-			"decisions_with_choice":                      3000,
-			"sys_interleavings":                          2000,
-			"sys_programs":                               800,
+			"schedules":             2000,
+			"random_programs":       2000,
+			"sys_interleavings":     3000,
+			"sys_programs":          4000,
+			"leaf_consumptions":     6000,
+			"size_calls":            2000,
+			"decisions_with_choice": 5000,
+			"parked_in_multiplexer": 10000,
+			"parked_waiting_for_other_clones_to_declare": 4000,
+			"parked_waiting_for_task":                    500,
+			"task_gate_releases":                         800,
+			"task_error_reported":                        250,
+			"io_error_seen":                              900,
+			"validation_error_seen":                      1000,
+			"early_closes":                               800,
+			"source_closed_once":                         1900,
 			"leaves_on_clone_of_task_buffer":             500,
-			"error_agreement_checks":                     100,
-			"size_calls":                                 2000,
+			"error_agreement_checks":                     500,
+			"thorough:schedules":                         100000,
+			"thorough:random_programs":                   100000,
+			"thorough:sys_programs":                      30000,
+			"thorough:sys_interleavings":                 12000,
+			"thorough:parked_in_multiplexer":             400000,
+			"thorough:task_gate_releases":                40000,
 		},
 		Assumptions: []string{
 			"after CloneStream every branch (including a CloneCopy of a stream clone, which consumes it synchronously) continues on its own goroutine, as Buffer.CloneStream documents",
@@ -81,9 +89,6 @@ func body(w *run.Worker) {
 	// race detector see different preemption patterns).
 	runtime.GOMAXPROCS([]int{4, 2, 4, 1, 4, 2, 4, 3}[w.Index%8])
 
-	t0 := time.Now()
-	defer func() { fmt.Fprintf(os.Stderr, "worker %d total %v\n", w.Index, time.Since(t0)) }()
-	lap := func(name string) { fmt.Fprintf(os.Stderr, "worker %d %s done at %v\n", w.Index, name, time.Since(t0)) }
 	stalls := 0
 	tooManyStalls := func() bool { return stalls >= 8 }
 
@@ -109,7 +114,6 @@ func body(w *run.Worker) {
 		w.Count("schedules", 1)
 	})
 
-	lap("sched")
 	cfgs := sysConfigs(w.Thorough())
 	w.Cases("sched-sys", share(len(cfgs), w), func(c *run.Case) {
 		if tooManyStalls() {
@@ -158,7 +162,6 @@ func body(w *run.Worker) {
 	})
 	w.Exhaustive("interleavings: 2 consumers with <=6 script steps, 3 consumers with <=5, 5 source scripts", !tooManyStalls())
 
-	lap("sched-sys")
 	depth := 2
 	if w.Thorough() {
 		depth = 3
@@ -187,7 +190,6 @@ func body(w *run.Worker) {
 	})
 	w.Exhaustive(fmt.Sprintf("programs: every op sequence of length<=%d over %d ops x %d bases x %d consumptions", depth, len(sysOps), numSysBases, numSysLeaves), !tooManyStalls())
 
-	lap("prog-sys")
 	w.Cases("prog-rnd", w.N(2400, 160000), func(c *run.Case) {
 		if tooManyStalls() {
 			w.Count("cases_skipped_after_stalls", 1)
